@@ -8,9 +8,9 @@ from pyvc.objs import make_obj
 from pyvc.sym import Sym
 
 META = {
-    "explanation": "Expr core (arg/all_args/all_params, unique-key override, defaults, nesting), the operator algebra, polynomial (loop invariant, any degree) and piecewise factories, MassAction/Arrhenius/Eyring/EyringHS/Radiolytic/RampedTemp/SinTemp, arrhenius_equation/eyring_equation, ArrheniusParam/EyringParam (call, from_rateconst_at_T round trip, as_RateExpr inside a Reaction), MassActionEq/GibbsEqConst proved equal to their defining formulas for all real arguments",
+    "explanation": "Expr core (arg/all_args/all_params, unique-key override, defaults, nesting), the operator algebra, polynomial (loop invariant, any degree) and piecewise factories, MassAction/Arrhenius/Eyring/EyringHS/Radiolytic/RampedTemp/SinTemp, arrhenius_equation/eyring_equation, ArrheniusParam/EyringParam (call, from_rateconst_at_T round trip, as_RateExpr inside a Reaction), named overrides inside sums / negations / differences of rate expressions, MassActionEq/GibbsEqConst proved equal to their defining formulas for all real arguments",
     "trusted_base": ["assumed contract 5.3: exp/log10/sin of math, numpy, sympy, Backend are the same real functions (so 'same number under every backend' reduces to the formula being backend-independent)"],
-    "not_decided": ["non-linear fits (curve_fit); the linearised fits and least_squares only on the data points of C16.fits (exact data is reproduced, three hand-computed regressions)", "floating-point equality across backends (bounded stand-in)", "with-units paths (C10 and bounded stand-in)"],
+    "not_decided": ["non-linear fits (curve_fit); the linearised fits and least_squares only on the data points of C16.fits (exact data is reproduced, also for closely spaced temperatures and abscissae far from the origin; hand-computed regressions)", "floating-point equality across backends (bounded stand-in)", "with-units paths (C10 and bounded stand-in)"],
     "assumptions": ["expression shapes are fixed per harness (shape-bounded) except create_Poly, proved for any number of coefficients"],
 }
 EX = "chempy.util._expr"
@@ -483,6 +483,33 @@ def _(v):
         except Exception as ex:
             bad.append(repr(ex)[:200])
     v.prove("exact_data_is_reproduced", not bad, detail=repr(bad))
+    # the same clause for every series of temperatures in 200..2000 K, also one whose points lie close together compared with their magnitude
+    # (a thermostatted measurement: 11 points within 0.01 K of 1500 K, 6 within 0.002 K of 200 K ...). What limits the answer: the slope of the
+    # straight line is a quotient of differences; the abscissae 1/T differ by span/T of their magnitude (>= 5e-6 here, so their differences
+    # are known to 2.2e-16/5e-6 = 5e-11), the ordinates ln k (|ln k| < 40) are known to 2.2e-16 relative, i.e. their differences
+    # (Ea/R * span/T**2 >= 1e-5 for Ea >= 50 kJ/mol) to 40*2.2e-16/1e-5 = 1e-9: 1e-7 of the parameter leaves a factor 100 (an evaluation whose
+    # intermediate quantities are SQUARES of the abscissae loses (T/span)**2 = 1e8..4e10 of the 16 digits instead, i.e. is off by 1e-6 and
+    # more for the narrow series). dS as above: 1e-3 absolute
+    bad = []
+    with warnings.catch_warnings():
+        warnings.simplefilter("ignore")
+        try:
+            for T0, span, n in ((1500.0, 0.01, 11), (1990.0, 0.01, 6), (600.0, 0.005, 11), (200.0, 0.002, 6), (1000.0, 0.1, 5)):
+                Tn = np.array([T0 + span * i / (n - 1) for i in range(n)])
+                for A, Ea in ((1e10, 50e3), (3.5e13, 120e3), (7.0, 0.0)):
+                    k = np.array([A * math.exp(-Ea / (R * t)) for t in Tn])
+                    for frac in (np.full(n, 0.01), np.array([0.01 * (1 + i % 3) for i in range(n)])):
+                        got = fit_arrhenius_equation(Tn, k, k * frac, linearized=True)
+                        if not (len(got) == 2 and abs(got[0] / A - 1) < 1e-7 and abs(got[1] - Ea) < 1e-7 * max(Ea, 1e3)):
+                            bad.append(("arrhenius", T0, span, n, A, Ea, tuple(got)))
+                for dH, dS in ((72e3, 61.4), (40e3, -25.0)):
+                    k = np.array([kB_h * t * math.exp(dS / R) * math.exp(-dH / (R * t)) for t in Tn])
+                    got = fit_eyring_equation(Tn, k, k * 0.01, linearized=True)
+                    if not (len(got) == 2 and abs(got[0] - dH) < 1e-7 * dH and abs(got[1] - dS) < 1e-3):
+                        bad.append(("eyring", T0, span, n, dH, dS, tuple(got)))
+        except Exception as ex:
+            bad.append(repr(ex)[:200])
+    v.prove("exact_data_is_reproduced_for_closely_spaced_temperatures", not bad, detail=repr(bad)[:600])
     bad = []
     with warnings.catch_warnings():
         warnings.simplefilter("ignore")
@@ -499,6 +526,27 @@ def _(v):
         except Exception as ex:
             bad.append(repr(ex)[:200])
     v.prove("least_squares_hand_computed", not bad, detail=repr(bad))
+    # the straight line through points that lie EXACTLY on y = 3 + 2x is that line (intercept 3, slope 2, R2 = 1 as the residuals vanish),
+    # wherever the abscissae lie: x = x0 + 0..5 with x0 = 1e2 .. 1e6 (all numbers are integers below 2**53, the data are exact), without
+    # and with weights. The intercept is the extrapolation over x0 of a slope known from a base of length 5: for the design matrix [1, x] the
+    # ratio of the singular values is sqrt(6)*x0 / (sqrt(17.5)/x0) = 0.6*x0**2, and a solver that works in double precision on the design matrix
+    # answers to 2.2e-16 * 0.6*x0**2 * |(3, 2)| = 5e-16*x0**2; allowed here: 1e-12 + 1e-13*x0**2 (a factor 200; 0.1 at x0 = 1e6, where
+    # solving through the explicitly inverted X^T X, whose condition is the square, is wrong in the leading digit)
+    bad = []
+    with warnings.catch_warnings():
+        warnings.simplefilter("ignore")
+        try:
+            for x0 in (1e2, 1e3, 1e4, 1e5, 1e6):
+                xs = [x0 + i for i in range(6)]
+                ys = [3 + 2 * x for x in xs]
+                for w in ((), ([1, 2, 1, 3, 1, 2],)):
+                    beta, vcv, r2 = least_squares(xs, ys, *w)
+                    tol = 1e-12 + 1e-13 * x0 ** 2
+                    if not (len(beta) == 2 and abs(beta[0] - 3) < tol and abs(beta[1] - 2) < tol / x0 and abs(r2 - 1) < 1e-9):
+                        bad.append((x0, w, tuple(beta), r2))
+        except Exception as ex:
+            bad.append(repr(ex)[:200])
+    v.prove("least_squares_exact_line_far_from_the_origin", not bad, detail=repr(bad))
 
 
 @harness("C16", "eyring_equation", functions=["chempy.kinetics.eyring:eyring_equation", "chempy.kinetics.eyring:_get_kB_over_h", "chempy.kinetics.eyring:EyringParam.__call__",
@@ -812,6 +860,67 @@ def _(v):
         v.prove_identity("minus_keyed_operand_refused_or_right", v.call(out.value, var_k, reaction=rxn), (k1 - k2) * cp)
     else:
         v.prove("minus_keyed_operand_refused_or_right", out.raised(), detail=repr(out.exc))
+
+
+@harness("C16", "arithmetic_named_overrides", functions=["chempy.util._expr:Expr.__add__", "chempy.util._expr:Expr.__neg__", "chempy.util._expr:Expr.__radd__", "chempy.util._expr:Expr.__rsub__",
+                                                        "chempy.util._expr:Expr.__sub__", "chempy.util._expr:Expr.all_args", "chempy.util._expr:Expr.all_unique_keys",
+                                                        "chempy.util._expr:_BinaryExpr.__call__", "chempy.util._expr:_NegExpr.__call__", RT + ":MassAction.__call__", RT + ":MassAction.rate_coeff",
+                                                        RT + ":Arrhenius.__call__", "chempy.chemistry:Reaction.rate"], kind="shape-bounded", div_mode="assume", samples=20)
+def _(v):
+    """'a named override of an argument replaces exactly that argument' and 'arithmetic combinations of expressions', together: an operand of
+    a sum / negation / difference that declares a name for its argument keeps that name inside the combination. With the terms
+    ma = k_a-named constant, mb = k_b-named constant, mc = mass action of an Arrhenius expression whose pre-exponential factor is named A_u,
+    md = unnamed constant (each times the concentration product cp of 2 A + B -> P), every combination evaluates to the same combination of
+    the terms' values, where the value of a named argument is the variable of that name if present and the stored number otherwise - for no
+    override, each single one, and all at once; the same through Reaction.rate. Combinations that the tree refuses to build for named
+    operands (difference, products with numbers: UnaryWrapper demands unnamed operands) may stay refused, but must not evaluate to another
+    number"""
+    from chempy.chemistry import Reaction
+    from chempy.kinetics.rates import MassAction, Arrhenius
+    k1, k2, k3, s = v.real("k1", lo=0.1, hi=9), v.real("k2", lo=0.1, hi=9), v.real("k3", lo=0.1, hi=9), v.real("s", lo=1.5, hi=4)   # s is not a neutral operand
+    oa, ob, oA = v.real("k_a_override", lo=10, hi=90), v.real("k_b_override", lo=10, hi=90), v.real("A_u_override", lo=10, hi=90)
+    A, EaR, T = v.real("A", lo=0.1, hi=9), v.real("Ea_over_R", lo=0, hi=2e3), v.real("T", lo=200, hi=2000)
+    cA, cB = v.real("cA", lo=0.01, hi=5), v.real("cB", lo=0.01, hi=5)
+    be = v.backend()
+    cp = cA * cA * cB
+    var = {"A": cA, "B": cB, "P": 0.0, "temperature": T}
+    mk_terms = lambda: (MassAction([k1], unique_keys=("k_a",)), MassAction([k2], unique_keys=("k_b",)), MassAction(Arrhenius([A, EaR], unique_keys=("A_u",))), MassAction([k3]))
+    scenarios = (("no_override", {}), ("only_first", {"k_a": oa}), ("only_second", {"k_b": ob}), ("only_nested", {"A_u": oA}), ("all", {"k_a": oa, "k_b": ob, "A_u": oA}))
+    # (label, the combination, its value as a function of the three effective constants, may the tree refuse to build it)
+    combos = (("sum", lambda a, b, c, d: v.call(a.__add__, b), lambda a, b, c: (a + b) * cp, False),
+              ("sum_reversed", lambda a, b, c, d: v.call(b.__add__, a), lambda a, b, c: (b + a) * cp, False),
+              ("sum_with_unnamed_term", lambda a, b, c, d: v.call(a.__add__, d), lambda a, b, c: (a + k3) * cp, False),
+              ("unnamed_term_plus", lambda a, b, c, d: v.call(d.__add__, b), lambda a, b, c: (k3 + b) * cp, False),
+              ("sum_with_nested_name", lambda a, b, c, d: v.call(c.__add__, b), lambda a, b, c: (c + b) * cp, False),
+              ("sum_of_three", lambda a, b, c, d: v.call(v.call(a.__add__, b).__add__, c), lambda a, b, c: (a + b + c) * cp, False),
+              ("negated_sum", lambda a, b, c, d: v.call(v.call(a.__add__, b).__neg__), lambda a, b, c: -(a + b) * cp, False),
+              ("plus_negated", lambda a, b, c, d: v.call(a.__add__, v.call(b.__neg__)), lambda a, b, c: (a - b) * cp, False),
+              ("number_plus", lambda a, b, c, d: v.call(a.__radd__, s), lambda a, b, c: s + a * cp, False),
+              ("number_minus", lambda a, b, c, d: v.call(b.__rsub__, s), lambda a, b, c: s - b * cp, False),
+              ("difference", lambda a, b, c, d: v.call(a.__sub__, b), lambda a, b, c: (a - b) * cp, True),
+              ("unnamed_minus_named", lambda a, b, c, d: v.call(d.__sub__, b), lambda a, b, c: (k3 - b) * cp, True),
+              ("times_number", lambda a, b, c, d: v.call(a.__mul__, s), lambda a, b, c: a * s * cp, True),
+              ("over_number", lambda a, b, c, d: v.call(a.__truediv__, s), lambda a, b, c: a / s * cp, True))
+    rxn = Reaction({"A": 2, "B": 1}, {"P": 1}, checks=())
+    for label, build, value, may_refuse in combos:
+        out = v.run(build, *mk_terms())
+        if not out.returned:
+            v.prove(label + ".refused_or_right", out.raised() if may_refuse else False, detail="building the expression raised %r" % (out.exc,))
+            continue
+        for sc, extra in scenarios:
+            eff = (extra.get("k_a", k1), extra.get("k_b", k2), extra.get("A_u", A) * be.exp(-EaR / T))
+            v.prove_identity("%s.%s" % (label, sc), v.call(out.value, dict(var, **extra), backend=be, reaction=rxn), value(*eff))
+    # the names of the operands are the names of the combination (what a caller is told it may override)
+    a, b, c, d = mk_terms()
+    total = v.call(v.call(a.__add__, b).__add__, c)
+    v.prove("names_of_the_operands_are_reported", v.call(total.all_unique_keys) == {"k_a", "k_b", "A_u"})
+    # the same through the reaction that carries the sum as its rate expression: d[P]/dt = rate, d[A]/dt = -2 rate
+    rx = Reaction({"A": 2, "B": 1}, {"P": 1}, total, checks=())
+    for sc, extra in scenarios:
+        eff = (extra.get("k_a", k1), extra.get("k_b", k2), extra.get("A_u", A) * be.exp(-EaR / T))
+        rates = v.call(rx.rate, dict(var, **extra), backend=be)
+        v.prove_identity("reaction_rate_of_product." + sc, rates["P"], sum(eff) * cp)
+        v.prove_identity("reaction_rate_of_reactant." + sc, rates["A"], -2 * sum(eff) * cp)
 
 
 @harness("C16", "named_override_through_the_units_wrapper", functions=["chempy.kinetics.arrhenius:ArrheniusParamWithUnits.as_RateExpr", "chempy.kinetics.arrhenius:ArrheniusParam.as_RateExpr",
